@@ -41,6 +41,12 @@ func TestReferenceAgreesWithImplementation(t *testing.T) {
 		"return-list":                 {Func("f", nil, []Stmt{Return{Vals: []Expr{I(1), S("a"), Nil{}}}}), V(CallNamed("f")), Return{Vals: []Expr{I(1), I(2)}}},
 		"variadic":                    {Func("f", []string{"a", "b"}, nil), ExprStmt{X: &FuncLit{Name: "g", Params: []string{"a", "r"}, VarArg: true, Body: []Stmt{V(v("a"), v("r")), Return{}}}}, ExprStmt{X: CallNamed("g", I(1))}, ExprStmt{X: CallNamed("g", I(1), I(2), I(3))}},
 	}
+	progs["defer-host-panics"] = []Stmt{Defer{Call: Probe{ID: 1}}, Defer{Call: Boom{ID: 7}}, Defer{Call: Probe{ID: 2}}, PV(3, I(4))}
+	progs["defer-host-panics-body-fails"] = []Stmt{Defer{Call: Probe{ID: 1}}, Defer{Call: Boom{ID: 7}}, P(3), Throw{X: S("BODY")}}
+	progs["defer-nil-func"] = []Stmt{Defer{Call: Probe{ID: 1}}, Defer{Call: Call{Fn: HostNilFunc{}}}, P(2)}
+	progs["call-nil-func"] = []Stmt{Try{Body: []Stmt{ExprStmt{X: Call{Fn: HostNilFunc{}}}, P(1)}, CatchVar: "e", Catch: []Stmt{V(v("e")), P(2)}}, P(3)}
+	progs["defer-name-rebound"] = []Stmt{Func("a1", []string{"x"}, []Stmt{V(S("a1"), v("x"))}), Func("a2", []string{"x"}, []Stmt{V(S("a2"), v("x"))}),
+		Func("run", []string{"cb"}, []Stmt{Defer{Call: CallNamed("cb", I(1))}, Return{Vals: []Expr{I(9)}}}), V(CallNamed("run", v("a1"))), V(CallNamed("run", v("a2")))}
 	for name, prog := range progs {
 		src := Source(prog)
 		obs := Exec(src, 5000)
